@@ -359,6 +359,21 @@ func (e *Engine) installExternals() {
 		}
 		return isNilFunc(rv.V)
 	}
+	x["(reflect.Value).Bool"] = func(fr *frame, a []Value) Value {
+		rv := a[0].(RValue)
+		if rv.T == nil || reflectKindIs(rv.T) != "bool" {
+			e.rtPanic("reflect: call of reflect.Value.Bool on non-bool Value")
+		}
+		return rv.V
+	}
+	x["(reflect.Value).Int"] = func(fr *frame, a []Value) Value { return a[0].(RValue).V }
+	x["(reflect.Value).String"] = func(fr *frame, a []Value) Value {
+		rv := a[0].(RValue)
+		if rv.T != nil && reflectKindIs(rv.T) == "string" {
+			return rv.V
+		}
+		return "<" + e.reflectString(rv.T) + " Value>"
+	}
 	x["(reflect.Value).IsValid"] = func(fr *frame, a []Value) Value { return a[0].(RValue).T != nil }
 	x["(reflect.Value).Kind"] = func(fr *frame, a []Value) Value { return reflectKind(a[0].(RValue).T) }
 	x["(reflect.Value).Type"] = func(fr *frame, a []Value) Value { return e.makeRType(a[0].(RValue).T) }
@@ -1345,4 +1360,16 @@ func (e *Engine) concreteDoc(tag string) Value {
 		out[i] = uint64(d[i])
 	}
 	return out
+}
+
+func reflectKindIs(t types.Type) string {
+	if b, ok := t.Underlying().(*types.Basic); ok {
+		switch {
+		case b.Info()&types.IsBoolean != 0:
+			return "bool"
+		case b.Info()&types.IsString != 0:
+			return "string"
+		}
+	}
+	return ""
 }
